@@ -2,7 +2,7 @@
 from .. import runner, spec, gen
 from ..harnesses import HStory
 from ..monitors import OrderMonitor
-from .common import mixed_part, live_part
+from .common import mixed_part, live_part, live3_part
 
 RULE = ('H-STORY: every sequence of <=N distinct story IDs over a pool (with a prefix pair A/AB) x 4 roCreate '
         'layouts (metadata before / between / after the stories / none) as initial states, closed breadth-first '
@@ -51,9 +51,10 @@ def run(tier):
                   'monitors': mon, 'opts': {'max_depth': 0}})
     parts.append(mixed_part(tier, mon))
     parts.append(live_part(tier, mon, spec.STORY_KINDS if 'c01' == 'c01' else spec.ITEM_KINDS))
+    parts.append(live3_part(tier, mon, spec.STORY_KINDS if 'c01' == 'c01' else spec.ITEM_KINDS))
     return runner.graph_check(
         'C01', tier, parts, rule=RULE + ' Plus H-MIXED: the same messages in every state reached by one earlier message of ANY of the 24 classes '
-        '(roReplace, roMetadataReplace, roStorySend, ...), as re-read text states and as two-message histories on one live object.', vacuity=vacuity,
+        '(roReplace, roMetadataReplace, roStorySend, ...), as re-read text states and as two- and three-message histories on one live object.', vacuity=vacuity,
         assumptions=['story IDs are only compared for equality (data independence): a pool with a prefix pair represents all IDs',
                      'running orders have unique, non-blank story IDs (precondition of the property)',
                      'several <element_source> tags (outside the MOS DTD) are only held to the multiset rule',
